@@ -5,9 +5,12 @@
    return; ctx.context_values / ctx.inputs / ctx.stacks / ctx.function_stack are explicit
    and `.pop()` on an empty one is an error, exactly the bookkeeping C12 is about.
 
-   Python scoping: a top-level assignment is a global of the exec namespace (`vars`);
-   inside a def (indef = true) an assignment would create a local, which the model does
-   not cover: ENotCore.  A function value is only ever entered when its body is in the
+   Python scoping: a top-level assignment is a global of the exec namespace (`vars`); the
+   named parameters of a function are locals of its frame (`locs`, looked up first); every
+   def runs in a frame of its own (`locs` empty for lambdas and list items).  Any other
+   assignment inside a def (indef = true) would create a local too: not covered, ENotCore.
+   A nested def that reads a parameter of an enclosing function would go through a closure
+   cell: excluded statically by Values.scope_ok.  A function value is only ever entered when its body is in the
    core (`core_ok_list true`), else ENotCore -- closures are built from the program text,
    so for a core program this never fires (checked on every correspondence run).
    Fuel is burnt per nesting level and per while iteration.  No proofs in this file. *)
@@ -43,7 +46,8 @@ Section Step.
      popped = what wrapify(arg_stack, n, ctx) popped, in popping order = the new `stack` list *)
   Definition m_lambda_body (c : closure) (popped : list value) (s : state) : xres (value * state) :=
     let saved := stk s in
-    let s := set_stk s (rev popped) in                             (* stack = wrapify(arg_stack, n, ctx) *)
+    let saved_locals := locs s in
+    let s := set_locs (set_stk s (rev popped)) [] in               (* a new frame; stack = wrapify(arg_stack, n, ctx) *)
     let s := m_fstack_push s in                                    (* this = self; ctx.function_stack.append(this) *)
     let s := m_ctx_push (context_of popped) s in                   (* ctx.context_values.append(list(stack) if len(stack) != 1 else stack[0]) *)
     let s := m_inputs_push (rev popped, O) s in                    (* ctx.inputs.append([list(deep_copy(stack))[::-1], 0]) *)
@@ -54,21 +58,26 @@ Section Step.
     xdo s <- m_inputs_pop s;                                       (* ctx.inputs.pop() *)
     xdo s <- m_stacks_pop s;                                       (* ctx.stacks.pop() *)
     xdo s <- m_fstack_pop s;                                       (* ctx.function_stack.pop() *)
-    XOk (res, set_stk s saved).                                    (* return res *)
+    XOk (res, set_locs (set_stk s saved) saved_locals).            (* return res: back in the caller's frame *)
 
   (* ---- def VAR_<f>(arg_stack, self, arity=-1, ctx=None): `stk s` is arg_stack ---------------------------- *)
-  Fixpoint m_params (ps : list nat) (acc : list value) (s : state) : state * list value :=
+  Fixpoint m_params (ps : list param) (acc : list value) (loc : list (str * value)) (s : state)
+    : state * list value * list (str * value) :=
     match ps with
-    | [] => (s, acc)
-    | n :: r => let (s1, popped) := popn n s in m_params r (acc ++ popped) s1   (* parameters += wrapify(arg_stack, n, ctx) *)
+    | [] => (s, acc, loc)
+    | PNum n :: r =>                                               (* parameters += wrapify(arg_stack, n, ctx) *)
+        let (s1, popped) := popn n s in m_params r (acc ++ popped) loc s1
+    | PName x :: r =>                                              (* VAR_<x> =pop(arg_stack, 1, ctx=ctx): a local of this def *)
+        let (s1, v) := pop1 s in m_params r acc (assign x v loc) s1
     end.
 
   (* result: the function's whole `stack` (top first); the state is back in the caller's
      frame with what is left of arg_stack *)
   Definition m_named_body (c : closure) (s : state) : xres (list value * state) :=
-    let (s, parameters) := m_params (c_params c) [] s in           (* parameters = []; the parameter lines *)
+    let '(s, parameters, loc) := m_params (c_params c) [] [] s in  (* parameters = []; the parameter lines *)
     let saved := stk s in
-    let s := set_stk s (rev parameters) in                         (* stack = parameters[::] *)
+    let saved_locals := locs s in
+    let s := set_locs (set_stk s (rev parameters)) loc in          (* stack = parameters[::] *)
     let s := m_ctx_push (VList parameters) s in                    (* ctx.context_values.append(parameters[::]) *)
     let s := m_stacks_push s in                                    (* ctx.stacks.append(stack) *)
     let s := m_inputs_push (rev parameters, O) s in                (* ctx.inputs.append([parameters[::-1], 0]) *)
@@ -76,7 +85,7 @@ Section Step.
     xdo s <- m_ctx_pop s;                                          (* ctx.context_values.pop() *)
     xdo s <- m_inputs_pop s;                                       (* ctx.inputs.pop() *)
     xdo s <- m_stacks_pop s;                                       (* ctx.stacks.pop() *)
-    XOk (stk s, set_stk s saved).                                  (* return stack *)
+    XOk (stk s, set_locs (set_stk s saved) saved_locals).          (* return stack *)
 
   (* helpers.safe_apply(function, *args, ctx=ctx) *)
   Definition m_app : app_t := fun c args s =>
@@ -116,7 +125,7 @@ Section Step.
         match tv t with [k] => elem_sem cf m_app m_callstk k s | _ => XErr ENotCore end
     | KVarGet =>                                                   (* stack.append(VAR_<x>); *)
         if name_ok (tv t) then
-          match lookup (tv t) (vars s) with Some v => XOk (push v s) | None => XErr EName end
+          match lookup_var (tv t) s with Some v => XOk (push v s) | None => XErr EName end
         else XErr ENotCore
     | KVarSet =>                                                   (* VAR_<x> = pop(stack, 1, ctx=ctx) *)
         if name_ok (tv t) && negb indef then
@@ -168,10 +177,12 @@ Section Step.
     | [] => XOk (temp, s)
     | x :: r =>
         let saved := stk s in                                      (* def list_item(s, ctx): stack = list(deep_copy(s)) *)
-        xdo s1 <- run x s;                                         (*     <item> *)
+        let saved_locals := locs s in
+        xdo s1 <- run x (set_locs s []);                           (*     <item>, in a frame of its own *)
+        let back := set_locs (set_stk s1 saved) saved_locals in
         match stk s1 with
-        | [] => m_items run r temp (set_stk s1 saved)              (*     if len(stack) == 0: return *)
-        | v :: _ => m_items run r (temp ++ [v]) (set_stk s1 saved) (*     return pop(stack, 1, ctx=ctx); if f is not None: temp_list.append(f) *)
+        | [] => m_items run r temp back                            (*     if len(stack) == 0: return *)
+        | v :: _ => m_items run r (temp ++ [v]) back               (*     return pop(stack, 1, ctx=ctx); if f is not None: temp_list.append(f) *)
         end
     end.
 
@@ -201,7 +212,7 @@ Section Step.
         wl indef v c b s2                                          (* while boolify(condition, ctx): ... *)
     | SFnCall n =>                                                 (* stack += VAR_<f>(stack, self=None, ctx=ctx) *)
         if name_ok (keep re_keep_fncall n) then
-          match lookup (keep re_keep_fncall n) (vars s) with
+          match lookup_var (keep re_keep_fncall n) s with
           | Some (VFun c) => m_callstk c s
           | Some _ => XErr EStuck
           | None => XErr EName
@@ -210,7 +221,7 @@ Section Step.
     | SFnDef n ps body =>                                          (* def VAR_<f>(arg_stack, self, arity=-1, ctx=None): *)
         if negb indef && name_ok (keep re_keep_fndef n) then
           match params_of ps with
-          | Some counts => XOk (set_vars s (assign (keep re_keep_fndef n) (VFun (mk_named counts body)) (vars s)))
+          | Some params => XOk (set_vars s (assign (keep re_keep_fndef n) (VFun (mk_named params body)) (vars s)))
           | None => XErr ENotCore
           end
         else XErr ENotCore
@@ -221,7 +232,7 @@ Section Step.
         match o with
         | OpMap => elem_sem cf m_app m_callstk 77%N s1             (* the template of M *)
         | OpFilter => elem_sem cf m_app m_callstk 70%N s1          (* the template of F *)
-        | OpSort => XErr ENotCore
+        | OpSort => elem_sem cf m_app m_callstk 7777%N s1          (* the template of ṡ *)
         end
     | SList its =>
         xdo (temp, s1) <- m_items (rec true) its [] s;             (* temp_list = []; the items *)
